@@ -141,8 +141,95 @@ pub fn check(input: &String, acc: &mut Acc) {
     }
 }
 
+/// Several numeric tests in one expression (coinciding values, equal products in different units,
+/// lower and upper bounds in either order): the text-level reference fixes the tree, every
+/// written constant (or its product with the unit) must be among the program's literals, and the
+/// compiled comparison is executed on records around each constant.
+fn check_multi(input: &String, acc: &mut Acc) {
+    acc.states += 1;
+    acc.transitions += 1;
+    acc.validated += 1;
+    let wit = || json!({"kind": "multi", "input": input});
+    let tree = match compare(input) {
+        Verdict::AgreeAccept(t) => t,
+        Verdict::Skip(r) => {
+            acc.skip(r);
+            return;
+        }
+        Verdict::AgreeReject(..) => return,
+        other => {
+            acc.violate(Violation::new("C07:several-numeric-tests:parse", format!("parse({input:?}): {other:?}").chars().take(400).collect::<String>(), wit()));
+            return;
+        }
+    };
+    let (o, e) = match parse_real(input) {
+        P::Ok(o, e) => (o, e),
+        _ => return,
+    };
+    let (text, _) = match compile_render(&e, &o, "/dev") {
+        C::Ok(v) => v,
+        C::Err(_) => return,
+        C::Panic(p) => {
+            acc.violate(Violation::new(format!("C07:compile-panic:{}", panic_site(&p)), format!("compile of {input:?} panicked: {p}"), wit()));
+            return;
+        }
+    };
+    let Ok(shape) = Prog::read(&text).and_then(|p| p.shape()) else { return };
+    let mut lits = vec![];
+    nums(&shape.scan_args[2], &mut lits);
+    let mut missing = None;
+    tree.visit_leaves(&mut |l| {
+        if let Expr::Test(t) = l {
+            let want = expected_constants(t);
+            if !want.is_empty() && !want.iter().any(|c| lits.contains(c)) {
+                missing = Some((format!("{t:?}"), want));
+            }
+        }
+    });
+    if let Some((t, want)) = missing {
+        acc.violate(Violation::new(
+            "C07:constant-changed-in-program:several-numeric-tests",
+            format!("{input:?}: the program's integer literals {lits:?} contain neither the written count nor count x unit ({want:?}) of {t}"),
+            wit(),
+        ));
+        return;
+    }
+    acc.outcome(&lits);
+    let mut scratch = Acc::new();
+    if let Err(m) = c02::validate(&tree, &e, &mut scratch) {
+        acc.violate(Violation::new("C07:comparison-wrong:several-numeric-tests", format!("{input:?}: {}: {}", m.aspect, m.detail), wit()));
+    }
+}
+
+/// Every count 0..=1100 and a few dozen mid-range values (not boundaries of anything) under every
+/// numeric keyword and unit.
+fn dense_inputs() -> Vec<String> {
+    use speclib::textspec::{ArgKind, VOCAB};
+    let mut vals: Vec<u64> = (0..=1100).collect();
+    vals.extend([1439, 1440, 1441, 3599, 3600, 3601, 9999, 10000, 43200, 65535, 65536, 65537, 86399, 86400, 86401, 99999, 100000, 604800, 1048575, 1048576, 1048577, 16777215, 16777216, 16777217, 123456789, 999999999]);
+    let mut out = vec![];
+    for kw in VOCAB {
+        for k in kw.args {
+            let units: &[&str] = match k {
+                ArgKind::U32Cmp | ArgKind::U64Cmp | ArgKind::U32 => &[""],
+                ArgKind::SizeCmp => &["", "c", "w", "k", "M", "G", "T"],
+                ArgKind::TimeCmpMin | ArgKind::TimeCmpDay => &["", "s", "m", "h", "d"],
+                _ => continue,
+            };
+            for n in &vals {
+                for u in units {
+                    let s = if *k == ArgKind::U32 { "" } else { ["", "+", "-"][(*n % 3) as usize] };
+                    out.push(format!("{} {s}{n}{u}", kw.word));
+                }
+            }
+        }
+    }
+    out
+}
+
 pub fn run(ctx: &Ctx) -> i32 {
     let mut inputs = numeric_inputs();
+    inputs.extend(dense_inputs());
     // the thread count next to other options and inside an expression
     let threads: Vec<String> = inputs.iter().filter(|s| s.starts_with("-threads ")).cloned().collect();
     for t in &threads {
@@ -160,7 +247,8 @@ pub fn run(ctx: &Ctx) -> i32 {
             inputs.push(format!("{kw} \"{a}\" -print"));
         }
     }
-    let acc = par_items(&inputs, check);
+    let multi: Vec<String> = crate::props::corpus::value_interaction_inputs().into_iter().filter(|s| s.matches(" -").count() >= 1 && !s.starts_with("-name") ).collect();
+    let acc = par_items(&inputs, check).merge(par_items(&multi, check_multi));
     let mut extra = serde_json::Map::new();
     extra.insert("inputs".into(), json!(inputs.len()));
     finish(
@@ -170,7 +258,7 @@ pub fn run(ctx: &Ctx) -> i32 {
             level: "model_checking",
             exhaustive: true,
             rule: "state = (numeric keyword, sign, leading zeros, value of the boundary lattice, unit letter); the real parser's verdict and tree are compared with arbitrary-precision arithmetic on the written digits; accepted inputs are compiled, the integer literals of the emitted comparison read back (they must contain the exact value, resp. value x unit and the unit), the scan call's thread argument read back, and the comparison executed on records around the constant; distinct = distinct literal sets and error texts".into(),
-            bound: format!("every numeric keyword x {{'', +, -}} x {{no, 1, 3}} leading zeros x every unit letter x a lattice of 50+ values around 2^31, 2^32, 2^63, 2^64, 10^19, 10^20, 10^39 and 2^64/unit for every unit ({} inputs); release build here, the debug build's results are tied to these by C17's pairwise comparison over the same lattice", inputs.len()),
+            bound: format!("every numeric keyword x {{'', +, -}} x {{no, 1, 3}} leading zeros x every unit letter x a lattice of 50+ values around 2^31, 2^32, 2^63, 2^64, 10^19, 10^20, 10^39 and 2^64/unit for every unit, the whole seconds / minutes / hours / days since the epoch and their neighbours, every count 0..1100 and 26 mid-range values under every keyword and unit ({} inputs); {} expressions with two numeric tests on one attribute (bounds in both orders, equal values, equal products in different units) under and / or / list / negation; release build here, the debug build's results are tied to these by C17's pairwise comparison over the same lattice", inputs.len(), multi.len()),
             assumptions: vec!["field ranges: 32 bits for ids, inode, mirror/stripe counts and the thread count; 64 bits for link counts, sizes (after multiplication by the unit) and ages".into()],
             extra,
         },
@@ -179,6 +267,10 @@ pub fn run(ctx: &Ctx) -> i32 {
 
 pub fn replay(w: &Value) -> Vec<Violation> {
     let mut acc = Acc::new();
+    if w["kind"] == "multi" {
+        check_multi(&w["input"].as_str().unwrap_or("").to_string(), &mut acc);
+        return acc.violations.into_values().map(|(v, _)| v).collect();
+    }
     check(&w["input"].as_str().unwrap_or("").to_string(), &mut acc);
     acc.violations.into_values().map(|(v, _)| v).collect()
 }
